@@ -101,7 +101,7 @@ P = D.DesignProperty(
     rule=("case = generated discrete design plus 1-3 continuous factor specs, continuous constraints and a sampling strategy; up to 3 "
           "sequences are judged; non-trivial = at least one sequence returned and a derived continuous factor or a continuous "
           "constraint is present; distinct = distinct case JSON"),
-    cfg_quick=CFG, n_quick=160, n_thorough=1600, case_limit=(15, 90), strategy=cases,
+    cfg_quick=CFG, n_quick=160, n_thorough=800, case_limit=(15, 90), strategy=cases,
     limits={"max_T": {"quick": 9, "thorough": 14}},
     assumptions=["catalogue functions are pure and NaN-aware so that the expected value can be recomputed from the returned values regardless of resampling rounds",
                  "float comparison with relative tolerance 1e-9, NaN compared with isnan"])
